@@ -22,6 +22,7 @@ TABLE = [
     ("C19", r".*", r"fsal|proto\.|naccpt", ["counters", "protocol"]),
     ("C02", r".*", r"fsal", ["counters"]),
     ("C04", r".*", r"term\.|safety", ["termination"]),
+    ("C17", r"matrix_sub|matrix_add", r".*", ["matrix_arith_dense_model"]),
     ("C17", r".*", r".*", ["matrix_dense_model"]),
     ("C16", r".*", r".*", ["lu_small"]),
     ("C15", r".*", r".*", ["default_mass"]),
